@@ -166,3 +166,49 @@ def find_stmts(body, pred):
             for c in s.cases:
                 out.extend(find_stmts(c.body, pred))
     return out
+
+
+def single_def(fn, name, before=None):
+    '''The value of the only binding `name = value` in the function's own scope (optionally: located before line `before`), else None.'''
+    found = []
+    for n in walk_no_nested(fn):
+        if isinstance(n, ast.Name) and n.id == name and isinstance(n.ctx, (ast.Store, ast.Del)):
+            found.append(n)
+    if len(found) != 1:
+        return None
+    for n in walk_no_nested(fn):
+        if isinstance(n, ast.Assign) and len(n.targets) == 1 and n.targets[0] is found[0]:
+            return n.value if before is None or n.lineno < before else None
+        if isinstance(n, ast.AnnAssign) and n.target is found[0] and n.value is not None:
+            return n.value if before is None or n.lineno < before else None
+    return None
+
+
+def resolved(fn, expr, before=None):
+    '''expr, or the right-hand side of its only binding when expr is a local name bound exactly once (before line `before`).'''
+    seen = 0
+    while isinstance(expr, ast.Name) and seen < 5:
+        v = single_def(fn, expr.id, before)
+        if v is None:
+            break
+        expr = v
+        seen += 1
+    return expr
+
+
+def deep_resolved(fn, expr, before=None, depth=6):
+    '''A copy of expr in which every local name that is bound exactly once in fn (by a plain assignment) is replaced by its
+    right-hand side, recursively: what the expression denotes in terms of parameters, attributes and multiply-bound names.'''
+    import copy
+
+    class T(ast.NodeTransformer):
+        def __init__(self, d):
+            self.d = d
+
+        def visit_Name(self, n):
+            if isinstance(n.ctx, ast.Load) and self.d > 0:
+                v = single_def(fn, n.id, before)
+                if v is not None:
+                    return T(self.d - 1).visit(copy.deepcopy(v))
+            return n
+    return T(depth).visit(copy.deepcopy(expr))
